@@ -73,7 +73,25 @@ pub fn generate(seed: u64, tier: &str, sink: &mut Sink) {
     let thorough = tier == "thorough";
     let n = if thorough { 40_000 } else { 3000 };
     let defaults: [Option<&'static Encoding>; 3] = [None, Some(encoding_rs::UTF_8), Some(encoding_rs::SHIFT_JIS)];
-    for _ in 0..n {
+    // the streaming reader with buffers too small for one UTF-8 sequence, on bodies that end inside a
+    // multi-byte or escape sequence (every reference charset): first cases of every run
+    let mut forced: Vec<(&'static str, Vec<u8>, usize)> = vec![];
+    for label in ["utf-8", "shift_jis", "euc-jp", "iso-2022-jp", "gbk", "big5", "euc-kr", "utf-16le", "windows-1252"] {
+        let enc = Encoding::for_label(label.as_bytes()).unwrap();
+        let (b, _, _) = enc.encode("a&#233;日本語テキスト日");
+        let full = b.into_owned();
+        for cut in [1usize, 2, 3] {
+            for rb in [1usize, 2, 3] {
+                if full.len() > cut {
+                    forced.push((label, full[..full.len() - cut].to_vec(), rb));
+                }
+            }
+        }
+        let cyc: Vec<u8> = full.iter().cycle().take(19_374 % (full.len() * 700) + 1).copied().collect();
+        forced.push((label, cyc, 1));
+    }
+    for i in 0..n {
+        let force = forced.get(i).cloned();
         // --- header form
         let (ct, raw_label, form): (Option<Vec<u8>>, Option<Vec<u8>>, &str) = match rng.below(9) {
             0 => (None, None, "absent"),
@@ -102,11 +120,18 @@ pub fn generate(seed: u64, tier: &str, sink: &mut Sink) {
                 (Some(format!("text/html; charset={}", l).into_bytes()), Some(l.into_bytes()), "standard")
             }
         };
+        let (ct, raw_label, form) = match &force {
+            Some((l, _, _)) => (Some(format!("text/plain; charset={}", l).into_bytes()), Some(l.as_bytes().to_vec()), "standard"),
+            None => (ct, raw_label, form),
+        };
         let dflt = *rng.pick(&defaults);
         // what the statement says
         let declared: Option<&'static Encoding> = raw_label.as_ref().and_then(|l| Encoding::for_label(l));
         let expect: &'static Encoding = declared.or(dflt).unwrap_or(encoding_rs::WINDOWS_1252);
-        let body = body_for(&mut rng, expect);
+        let body = match &force {
+            Some((_, b, _)) => b.clone(),
+            None => body_for(&mut rng, expect),
+        };
         let has_bom = body.starts_with(&[0xef, 0xbb, 0xbf]) || body.starts_with(&[0xff, 0xfe]) || body.starts_with(&[0xfe, 0xff]);
         let mut head = b"HTTP/1.1 200 OK\r\n".to_vec();
         if let Some(ct) = &ct {
@@ -134,7 +159,7 @@ pub fn generate(seed: u64, tier: &str, sink: &mut Sink) {
                 }
             }
         }
-        let call = rng.below(4);
+        let call = if force.is_some() { 1 } else { rng.below(4) };
         let mut rbuf = 0usize;
         let o: Result<(String, String), (String, String)> = (|| {
             let resp = send_over(segs.clone(), dflt).map_err(|e| ("send-failed".to_string(), e))?;
@@ -152,6 +177,9 @@ pub fn generate(seed: u64, tier: &str, sink: &mut Sink) {
                     let mut r = resp.text_reader();
                     // small reads: the streaming reader must not depend on them
                     rbuf = if body.len() % 2 == 0 { 1 + (body.len() % 3) } else { 4 + (body.len() % 61) };
+                    if let Some((_, _, rb)) = &force {
+                        rbuf = *rb;
+                    }
                     let mut buf = vec![0u8; rbuf];
                     let mut raw = vec![];
                     let res = loop {
@@ -222,7 +250,7 @@ pub fn generate(seed: u64, tier: &str, sink: &mut Sink) {
             table
         );
         sink.push(Case {
-            tags: vec![format!("header={}", form), format!("default={}", dflt.map(|d| d.name()).unwrap_or("none")), format!("call={}", what), format!("seg={}", ["one", "1-byte", "random"][seg_mode as usize]), format!("charset={}", expect.name()), format!("bom={}", has_bom)],
+            tags: vec![format!("header={}", form), format!("default={}", dflt.map(|d| d.name()).unwrap_or("none")), format!("call={}", what), format!("seg={}", ["one", "1-byte", "random"][seg_mode as usize]), format!("charset={}", expect.name()), format!("bom={}", has_bom), format!("tiny-read-buffer={}", what == "text_reader" && rbuf > 0 && rbuf < 4)],
             op,
             impl_line: format!("cs={}", hex(impl_cs.as_bytes())),
             oracle: o.map(|_| ()),
